@@ -245,3 +245,9 @@ func SigValid(alg string, key, msg, sig []byte) bool {
 	}
 	return false
 }
+
+// And / Or / Implies combine conditions without short-circuit control flow: under the executor the result is
+// one term instead of a fork per operand (Go's && and || compile to branches).
+func And(a, b bool) bool     { return a && b }
+func Or(a, b bool) bool      { return a || b }
+func Implies(a, b bool) bool { return !a || b }
